@@ -58,7 +58,7 @@ fn c15_figures_match_recomputation() {
         let mut rng = Rng::new(150 + salt);
         let mut chain = gen_history(&mut rng, 12);
         // ties: two transactions of identical size and value that both beat every earlier one, in one block and across blocks
-        let fat = |tag: u8| TxSpec::new(vec![TxIn::new([tag; 32], 0, vec![0x51; 900])], vec![TxOut::new(20_000_000_000, p2pkh_script(&[tag; 20]))]);
+        let fat = |tag: u8| TxSpec::new(vec![TxIn::new([tag; 32], 0, vec![0x51; 20_000])], vec![TxOut::new(5_000_000_000_000, p2pkh_script(&[tag; 20]))]);
         chain[7].txs.push(fat(1)); chain[7].txs.push(fat(2)); chain[9].txs.push(fat(3));
         // non-monotonic timestamps
         chain[4].time = chain[3].time - 500; chain[5].time = chain[3].time + 7; chain[8].time = 1;
